@@ -2404,3 +2404,49 @@ def pan14(ctx):
         raise AnchorMissing("PAN-14: %d guarded syllable indices found (expected >= 3)" % n)
     r.analysed = {"guarded_indices": n}
     return r
+
+
+# ---------------------------------------------------------------- TAB-9: a literal with modifiers pins every node
+
+def tab9(ctx):
+    """`t:[-long]` is matched by expanding the literal into a full matrix (Segment::as_modifiers) and laying the modifiers
+    over it. The expansion must say something about *every* node -- present or absent -- or the literal also matches
+    segments that differ from it in the unmentioned node (t ~ tˤ, k ~ kʷ). All entries of the `nodes` array are `Some`."""
+    r = RuleResult("TAB-9", "Segment::as_modifiers gives every node an explicit value: the `nodes` array it returns has NodeType::count() entries and each is `Some(..)` (an absent node is pinned as negative, not left open)", floor=8)
+    lib = ctx.lib
+    b = ctx.fn(lib, "asca::seg::Segment::as_modifiers")
+    nk = lib.adts.get("asca::seg::NodeKind") or lib.adts.get("asca::lexer::NodeType")
+    n_nodes = len(nk["variants"]) if nk else 8
+    root = b.hir["body"]
+    lets = [x for x in hirq.walk(root) if x["e"] == "let" and (x.get("pat") or {}).get("p") == "bind" and x["pat"].get("name") == "nodes" and x.get("init") is not None]
+    if len(lets) != 1:
+        raise AnchorMissing("TAB-9: as_modifiers: the `nodes` array is not built in one `let nodes = ..`")
+    init = hirq.strip(lets[0]["init"])
+    mutated = [x for x in hirq.walk(root) if x["e"] == "assign" and hirq.path_hid(_root_of(x["lhs"])) == lets[0]["pat"].get("hid")]
+
+    def is_some(e):
+        e = hirq.strip(e)
+        return e.get("e") == "call" and (hirq.strip(e["f"]).get("path") or "").endswith("Option::Some")
+    items = None
+    if init.get("e") == "array":
+        items = [("item", it) for it in init["items"]]
+    elif init.get("e") == "mcall" and init["name"] == "map" and hirq.strip(init["recv"]).get("e") == "array":
+        cl = hirq.strip(init["args"][0])
+        body = hirq.strip(cl.get("body")) if cl.get("e") == "closure" else None
+        items = [("mapped", body)] * len(hirq.strip(init["recv"])["items"]) if body is not None else None
+    if items is None or mutated:
+        r.inst("as_modifiers: the node array is built in a form the rule cannot read (%s)" % ("later assignments" if mutated else init.get("e")), fn_loc(b, lets[0].get("ln")), "report")
+        r.report("TAB-9|as_modifiers|unreadable", fn_loc(b, lets[0].get("ln")), b.path,
+                 "the `nodes` array of as_modifiers is not an array literal of `Some(..)` entries (it is filled in later or computed): an entry that can stay `None` leaves that node unconstrained, and a literal with modifiers matches segments that differ from it in that node (`t:[-long]` matches `tˤ`)")
+        return r
+    if len(items) != n_nodes:
+        r.report("TAB-9|as_modifiers|count", fn_loc(b, lets[0].get("ln")), b.path, "the `nodes` array has %d entries, there are %d node kinds" % (len(items), n_nodes))
+    names = [v["name"] for v in nk["variants"]] if nk else [str(i) for i in range(n_nodes)]
+    for i, (_kind, it) in enumerate(items):
+        ok = it is not None and is_some(it)
+        nm = names[i] if i < len(names) else str(i)
+        r.inst("as_modifiers: node %s is pinned (`Some(..)`)" % nm, fn_loc(b, (it or {}).get("ln") or lets[0].get("ln")), "ok" if ok else "report")
+        if not ok:
+            r.report("TAB-9|as_modifiers|%s" % nm, fn_loc(b, (it or {}).get("ln") or lets[0].get("ln")), b.path,
+                     "the entry for node %s is not a plain `Some(..)`: when it evaluates to `None` the node is left unconstrained and an IPA literal with modifiers (`t:[-long]`, `k:[+stress]`) also matches segments that carry that node (tʲ, tˤ, kʷ)" % nm)
+    return r
